@@ -16,7 +16,7 @@ SPEC = dict(
          'persistent worker process that loads the same file through the real loader, runs the real Validate on its own CurrentConfig and then - from that '
          'same in-memory configuration - instantiates with the real constructors / initializeCurves / initializeFanControllers, evaluates every curve under '
          '8 sensor environments (incl. NaN/Inf averages) and runs calculateTargetPwm for every fan; panics are recovered, a stack overflow (endless recursion) '
-         'or a 15 s stall kills the worker and is attributed to the target it had started (stack limit 16 MB; generation stops after 12 such cases, each of '
+         'or an 8 s stall kills the worker and is attributed to the target it had started (stack limit 4 MB; generation stops after 8 such cases, each of '
          'which is a failing input). Every 40th case and the corpus (about 50 documents per run) also go through the real command line entry '
          '`fan2go config validate -c file` (cmd/root.go, cobra, cmd/config/validate.go) in a child process; exit status and the "Config looks good" / '
          '"Validation failed" line must give the same verdict class. Observation outside C11 (b-startup): a hwmon fan without an RPM input is accepted but its '
